@@ -72,6 +72,42 @@ theorem C04_element (r : R) (hI : RInv r) (n m : Node) (rest : List Bool) (hl : 
     ∃ r', getDescValue r n = some (r', readBack n m) ∧ r'.bits = rest ∧ RInv r' :=
   getDescValue_view r hI n m rest hl hns hw.1 hw.2 hb
 
+
+/-- **listed character column**: ANY reference string, strings of `NBINC` octets each -/
+theorem C04_character_column_listed (r : R) (cb : Node) (col : List Node) (g : Range) (r0 : List Nat) (k : Nat)
+    (strs : List (List Nat)) (rest : List Bool) (hI : RInv r)
+    (hlen : r0.length = (cb.enc.nbits / 8).toNat) (hpos : 0 < r0.length)
+    (hk0 : 0 < k) (hk : k < 64) (hk63 : k = 63 → cb.enc.nbits = 63 * 8)
+    (hfull : g.from_ ≤ 0) (hn : strs.length = g.nsub) (hsl : ∀ s ∈ strs, s.length = k)
+    (hb : r.bits = r0.flatMap (bitsMSB 8) ++ bitsMSB 6 k ++ strs.flatMap (fun s => s.flatMap (bitsMSB 8)) ++ rest) :
+    ∃ r', getCcittCompressed r (cb :: col) g =
+        some (r', zipWithStrs (fun n s => { mkvalNode n with
+          val := (mkvalNode n).val.setString (some s) ((mkvalNode n).enc.nbits / 8).toNat })
+          (cb :: col) (strs.map (fun s => s.map (· % 256)))) ∧
+      r'.bits = rest ∧ RInv r' :=
+  getCcittCompressed_listed r cb col g r0 k strs rest hI hlen hpos hk0 hk hk63 hfull hn hsl hb
+
+/-- **constant character column** -/
+theorem C04_character_column_const (r : R) (cb : Node) (col : List Node) (g : Range) (cs : List Nat)
+    (rest : List Bool) (hI : RInv r) (hlen : cs.length = (cb.enc.nbits / 8).toNat) (hpos : 0 < cs.length)
+    (hb : r.bits = cs.flatMap (bitsMSB 8) ++ bitsMSB 6 0 ++ rest) :
+    ∃ r', getCcittCompressed r (cb :: col) g =
+        some (r', (cb :: col).map (fun n => { mkvalNode n with
+          val := (mkvalNode cb).val.setString (some (cs.map (· % 256))) (cb.enc.nbits / 8).toNat })) ∧
+      r'.bits = rest ∧ RInv r' :=
+  getCcittCompressed_const r cb col g cs rest hI hlen hpos hb
+
+/-- **associated-field column**, any local reference value and increment width -/
+theorem C04_af_column_listed (r : R) (cb : Node) (col : List Node) (g : Range) (r0 k : Nat) (incs : List Nat)
+    (rest : List Bool) (hI : RInv r) (haf : cb.enc.afNbits ≠ 0) (hw : 1 ≤ (mkvalNode cb).afW ∧ (mkvalNode cb).afW ≤ 64)
+    (hk0 : 0 < k) (hk : k < 64) (hfull : g.from_ ≤ 0) (hn : incs.length = g.nsub)
+    (hb : r.bits = bitsMSB (mkvalNode cb).afW r0 ++ bitsMSB 6 k ++ incs.flatMap (bitsMSB k) ++ rest) :
+    ∃ r', getAfCompressed r (cb :: col) g =
+        some (r', zipWithNodes (fun n v => { mkvalNode n with afBits := v + r0 % 2^(mkvalNode cb).afW })
+          (cb :: col) (incs.map (· % 2^k))) ∧
+      r'.bits = rest ∧ RInv r' :=
+  getAfCompressed_listed r cb col g r0 k incs rest hI haf hw hk0 hk hfull hn hb
+
 /-- the reference encoder never asks for less than one bit per increment -/
 theorem C04_minNbinc_pos (d : Nat) : 1 ≤ minNbinc d := by unfold minNbinc; omega
 
